@@ -978,10 +978,12 @@ void *Backend::remap(void *ptr, size_t oldSize, size_t newSize, size_t alignment
     if (oldRegion->type != MEMREG_ONE_BLOCK)
         return nullptr;  // we are not single in the region
     const size_t userOffset = (uintptr_t)ptr - (uintptr_t)oldRegion;
+    if (newSize + userOffset < newSize) // is wrapped around?
+        return nullptr;
     const size_t alignedSize = LargeObjectCache::alignToBin(newSize + userOffset);
     const size_t requestSize =
         alignUp(sizeof(MemRegion) + alignedSize + sizeof(LastFreeBlock), extMemPool->granularity);
-    if (requestSize < alignedSize) // is wrapped around?
+    if (alignedSize < newSize || requestSize < alignedSize) // is wrapped around?
         return nullptr;
     regionList.remove(oldRegion);
 
